@@ -21,7 +21,7 @@ impl EventGen for ReuseElement {
         // of any vars set by this.
         reuse_element.eval_attributes(context)?;
 
-        context.push_element(&reuse_element);
+        context.push_element_scope(&reuse_element)?;
         let elref = reuse_element
             .get_attr("href")
             .ok_or_else(|| SvgdxError::MissingAttribute("href".to_owned()))
